@@ -138,7 +138,7 @@ class Gen:
         ops = [
             ("unary", 5), ("scale", 1), ("bin", 6), ("lin", 3), ("sum", 1), ("mean", 1), ("sumdim", 1),
             ("reshape", 1), ("transpose", 1), ("slice", 1.5), ("cat", 1), ("stack", 0.7), ("outer", 1),
-            ("matmul", 1.5), ("detach", 30 * self.p_detach),
+            ("matmul", 1.5), ("detach", 30 * self.p_detach), ("take", 1.0), ("where", 0.8),
         ]
         if allow_multi:
             ops += [("unbind", 1), ("split", 0.7)]
@@ -179,6 +179,15 @@ class Gen:
                 b = self.pick(pool, lambda n: sh[n] == sh[a])
             elif r < 0.75:
                 b = self.pick(pool, lambda n: sh[n] == ())
+            if b is None and len(sh[a]) >= 1 and rng.random() < 0.5:
+                # general broadcasting (bias-like operand): drop leading dims and/or set dims to 1
+                full = list(sh[a])
+                keep_from = rng.randint(0, len(full) - 1)
+                bshape = [d if rng.random() < 0.6 else 1 for d in full[keep_from:]]
+                src = self.pick(pool, lambda n: numel(sh[n]) <= 12)
+                if src is None:
+                    return None
+                b = self.adapter(src, tuple(bshape))
             if b is None:
                 src = self.pick(pool, lambda n: numel(sh[n]) <= 12)
                 if src is None:
@@ -267,6 +276,26 @@ class Gen:
         if kind == "detach":
             x = self.pick(pool)
             return self._emit("detach", [x])
+        if kind == "take":
+            x = self.pick(pool, lambda n: numel(sh[n]) >= 1)
+            if x is None:
+                return None
+            n_el = numel(sh[x])
+            k = rng.randint(1, 4)
+            idx = [rng.randrange(n_el) for _ in range(k)]  # repeats on purpose: scatter-add in backward
+            return self._emit("take", [x], {"idx": idx})
+        if kind == "where":
+            a = self.pick(pool, lambda n: numel(sh[n]) >= 2)
+            if a is None:
+                return None
+            b = self.pick(pool, lambda n: sh[n] == sh[a] and n != a)
+            if b is None:
+                src = self.pick(pool, lambda n: numel(sh[n]) <= 12)
+                if src is None:
+                    return None
+                b = self.adapter(src, sh[a])
+            mask = [rng.random() < 0.5 for _ in range(numel(sh[a]))]
+            return self._emit("where", [a, b], {"mask": mask})
         if kind == "unbind":
             x = self.pick(pool, lambda n: len(sh[n]) >= 1 and any(1 <= s <= 3 for s in sh[n]))
             if x is None:
